@@ -58,6 +58,7 @@ struct Ctx {
   // DI struct name -> list of candidate composite types
   std::multimap<std::string, DICompositeType *> diStructs;
   std::map<StructType *, std::vector<std::string>> fieldNames;
+  std::map<StructType *, std::string> displayName;   // when the LLVM type was merged with a same-layout type of another name
   std::map<const Value *, unsigned> vid;   // per function
   std::map<const BasicBlock *, unsigned> bid;
   std::map<const Value *, std::string> dbgName; // per function
@@ -126,6 +127,32 @@ static const std::vector<std::string> &fieldsOf(Ctx &C, StructType *ST) {
       }
       if (ok) { names = cand; break; }
     }
+    if (names.size() && names[0] == "f0") {
+      // llvm-link may have merged this type with a structurally identical one of another name (e.g. LU_stack_t
+      // with the OpenMP runtime's ident_t): fall back to the unique DI struct with the same layout and member names
+      std::set<std::vector<std::string>> found; std::string foundName;
+      for (auto &kv : C.diStructs) {
+        DICompositeType *CT = kv.second;
+        std::map<uint64_t, std::string> byOff;
+        unsigned members = 0;
+        for (DINode *E : CT->getElements())
+          if (auto *Mb = dyn_cast<DIDerivedType>(E)) {
+            if (Mb->getTag() != dwarf::DW_TAG_member) continue;
+            ++members;
+            byOff[Mb->getOffsetInBits() / 8] = Mb->getName().str();
+          }
+        if (members != ST->getNumElements() || CT->getSizeInBits() / 8 != SL->getSizeInBytes()) continue;
+        bool ok = true;
+        std::vector<std::string> cand(names.size());
+        for (unsigned i = 0; i < names.size(); ++i) {
+          auto f = byOff.find(SL->getElementOffset(i));
+          if (f == byOff.end()) { ok = false; break; }
+          cand[i] = f->second;
+        }
+        if (ok) { found.insert(cand); foundName = kv.first; }
+      }
+      if (found.size() == 1) { names = *found.begin(); C.displayName[ST] = foundName; }
+    }
   }
   return C.fieldNames[ST] = names;
 }
@@ -152,7 +179,7 @@ static void emitGepPath(Ctx &C, json::OStream &J, const GEPOperator *G) {
         const auto &fn = fieldsOf(C, ST);
         J.object([&] {
           J.attribute("k", "fld");
-          J.attribute("s", ST->hasName() ? normStructName(ST->getName()) : std::string("anon"));
+          J.attribute("s", C.displayName.count(ST) ? C.displayName[ST] : (ST->hasName() ? normStructName(ST->getName()) : std::string("anon")));
           J.attribute("i", (int64_t)i);
           J.attribute("n", fn[i]);
         });
